@@ -116,7 +116,10 @@ export function makeRunner(rt_, mode) {
     const built = rtsSx.map((r) => buildEnv(envSx, r));
     // one shared table: the parsers of one request must resolve references in the same environment
     const table = built[0].table;
-    const parsers = rtsSx.map((r, i) => cg.buildParserFromRuntype(makeBuilder(cg)(envSx, r).rt, "P" + i, false));
+    // a parser is published under a key of the caller's choosing: here the name of one of the NAMED types (for a parser that is
+    // a reference, usually not the type it refers to) — keys and type names are two namespaces
+    const keyOf = (i) => (envSx.length ? envSx[(i + 1) % envSx.length][0] : "P" + i);
+    const parsers = rtsSx.map((r, i) => cg.buildParserFromRuntype(makeBuilder(cg)(envSx, r).rt, keyOf(i), false));
     const flat = parsers.map((p) => jsonOrThrow(() => p.schema()));
     const overrides = {};
     // (own properties whatever the name: `overrides["__proto__"] = …` would set the prototype of the options object)
